@@ -87,6 +87,24 @@ fn check_linear_two(buf: &[u8]) {
     std::mem::forget(lin);
 }
 
+/// a look-ahead query answers correctly and leaves the cursor where it was
+fn check_linear_only(buf: &[u8]) {
+    let text = unsafe { std::str::from_utf8_unchecked(buf) };
+    let mut lin = LinearLocator::new(text);
+    let first = if starts_with_bom(buf) { 3 } else { 0 };
+    let o1 = any_offset(buf, first);
+    let o3 = any_offset(buf, o1);
+    let l3 = lin.locate_only(TextSize::from(o3 as u32));
+    let (r3, c3) = ref_row_col(buf, o3);
+    assert!(l3.row.to_zero_indexed() == r3 && l3.column.to_zero_indexed() == c3);
+    // the earlier offset is still a legal (monotone) query afterwards and is answered correctly
+    let l1 = lin.locate(TextSize::from(o1 as u32));
+    let (r1, c1) = ref_row_col(buf, o1);
+    assert!(l1.row.to_zero_indexed() == r1 && l1.column.to_zero_indexed() == c1);
+    kani::cover!(r3 > r1, "look-ahead on a later line than the following query");
+    std::mem::forget(lin);
+}
+
 fn check_random(buf: &[u8]) {
     let text = unsafe { std::str::from_utf8_unchecked(buf) };
     let mut rnd = RandomLocator::new(text);
@@ -110,6 +128,10 @@ macro_rules! loc_harness {
         #[kani::unwind($u)]
         #[kani::stub(memrchr2, verif_memrchr2)]
         #[kani::stub(find_newline, verif_find_newline)]
+        // (if a change makes other `memchr` entry points reachable, their CPU-feature detection must not end the run
+        // as an unsupported-construct failure: answer "no AVX2" so that the real code is executed)
+        #[kani::stub(core::arch::x86_64::__cpuid_count, verif_cpuid_count)]
+        #[kani::stub(core::arch::x86_64::_xgetbv, verif_xgetbv)]
         #[kani::stub(core::str::slice_error_fail, verif_slice_error_fail)]
         #[kani::stub(core::str::count::do_count_chars, verif_do_count_chars)]
         fn $name() {
@@ -119,7 +141,7 @@ macro_rules! loc_harness {
     };
 }
 
-// @verif name=loc_linear1_a3 props=C13 tier=quick features=location timeout=600 fns="LinearLocator::new,LinearLocatorState::init,LinearLocator::locate,LinearLocator::locate_inner,LinearLocatorState::new_line_start,UniversalNewlineIterator::count"
+// @verif name=loc_linear1_a3 props=C13 tier=quick features=location timeout=600 probe=0a,0d,0a,0300000000000000 fns="LinearLocator::new,LinearLocatorState::init,LinearLocator::locate,LinearLocator::locate_inner,LinearLocatorState::new_line_start,UniversalNewlineIterator::count"
 //   bound="all texts of 3 ASCII bytes; one locate() from the initial state at every boundary offset not between CR and LF"
 //   stubs="memchr::memrchr2 -> reference loop;find_newline -> reference scan (decided separately under C15);core::str::slice_error_fail -> immediate panic;core::str::count::do_count_chars -> panic (unreachable below 32 bytes)"
 //   assume="dev profile: LinearLocator's own debug self-check against LineIndex is compiled in and checked too"
@@ -134,11 +156,15 @@ loc_harness!(loc_linear1_b11, check_linear_one, 5, 8, [13, 1, 1]);
 //   stubs="memchr::memrchr2 -> reference loop;find_newline -> reference scan (decided separately under C15);core::str::slice_error_fail -> immediate panic;core::str::count::do_count_chars -> panic (unreachable below 32 bytes)"
 //   assume="dev profile: LinearLocator's own debug self-check against LineIndex is compiled in and checked too"
 loc_harness!(loc_linear1_1e1, check_linear_one, 4, 7, [1, 12, 1]);
-// @verif name=loc_linear2_a3 props=C13 tier=quick features=location timeout=600 fns="LinearLocator::new,LinearLocatorState::init,LinearLocator::locate,LinearLocator::locate_inner,LinearLocatorState::new_line_start,UniversalNewlineIterator::count"
+// @verif name=loc_linear2_a3 props=C13 tier=quick features=location timeout=600 probe=0a,0d,0a,0000000000000000,0300000000000000 fns="LinearLocator::new,LinearLocatorState::init,LinearLocator::locate,LinearLocator::locate_inner,LinearLocatorState::new_line_start,UniversalNewlineIterator::count"
 //   bound="all texts of 3 ASCII bytes; every non-decreasing pair of offsets (second query from the state the first left)"
 //   stubs="memchr::memrchr2 -> reference loop;find_newline -> reference scan (decided separately under C15);core::str::slice_error_fail -> immediate panic;core::str::count::do_count_chars -> panic (unreachable below 32 bytes)"
 //   assume="dev profile: LinearLocator's own debug self-check against LineIndex is compiled in and checked too"
 loc_harness!(loc_linear2_a3, check_linear_two, 3, 6, [1, 1, 1]);
+// @verif name=loc_linear_only_a3 props=C13 tier=quick features=location timeout=600 fns="LinearLocator::locate_only,LinearLocator::locate,LinearLocator::locate_inner"
+//   bound="all texts of 3 ASCII bytes; a locate_only() look-ahead followed by a locate() at an earlier-or-equal offset"
+//   stubs="memchr::memrchr2 -> reference loop;find_newline -> reference scan (decided separately under C15);core::str::slice_error_fail -> immediate panic;core::str::count::do_count_chars -> panic (unreachable below 32 bytes)"
+loc_harness!(loc_linear_only_a3, check_linear_only, 3, 6, [1, 1, 1]);
 // @verif name=loc_linear_a3 props=C13 tier=thorough features=location timeout=2400 fns="LinearLocator::new,LinearLocatorState::init,LinearLocator::locate,LinearLocator::locate_inner,LinearLocatorState::new_line_start,UniversalNewlineIterator::count"
 //   bound="all texts of 3 ASCII bytes; two monotone locate() calls plus a locate_only() look-ahead"
 //   stubs="memchr::memrchr2 -> reference loop;find_newline -> reference scan (decided separately under C15);core::str::slice_error_fail -> immediate panic;core::str::count::do_count_chars -> panic (unreachable below 32 bytes)"
